@@ -2,7 +2,7 @@
    Only statements; proofs are in Proofs/CrashProof.v.  Model/Crash.v is what is durable of a key between the filesystem
    steps of the repaired code; props/c11.py kills the real gateway at every verifhook site and compares. *)
 From Coq Require Import List Arith Bool.
-From VGW Require Import Model.Crash Proofs.CrashProof.
+From VGW Require Import Model.Crash Proofs.CrashProof Model.CrashVersions Proofs.CrashVersionsProof.
 Import ListNotations.
 
 (* a request killed after any number k of its steps leaves the key in its complete previous state or in the complete new
@@ -28,6 +28,32 @@ Theorem C11_recovery_is_possible : forall s r k r2, bucket_exists s = true ->
   bucket_exists (do_step (exec s1 Delete) S_rm_bucket) = false /\ leftovers (do_step (exec s1 Delete) S_rm_bucket) = [].
 Proof. exact recovery_is_possible. Qed.
 Print Assumptions C11_recovery_is_possible.
+
+(* versioning-enabled bucket: DeleteObject turns the current object into the delete marker in place (archive the current version,
+   write the marker's own version id, write the marker flag). Killed after any number of these steps, the version the marker
+   hides is still shown with its data under its id, and the key reads as before the delete or as deleted *)
+Theorem C11_versioned_delete_keeps_version : forall s fresh k,
+  c_marker (current s) = false -> fresh <> c_vid (current s) ->
+  let s' := run_killed (delete_steps fresh) s k in
+  In (c_vid (current s), c_data (current s)) (shown s') /\
+  (reads s' = Some (c_data (current s)) \/ reads s' = None).
+Proof. exact delete_keeps_version. Qed.
+Print Assumptions C11_versioned_delete_keeps_version.
+
+(* and every other version shown before is shown afterwards *)
+Theorem C11_versioned_delete_frame : forall s fresh k e,
+  c_marker (current s) = false -> fresh <> c_vid (current s) -> fst e <> fresh ->
+  In e (shown s) -> In e (shown (run_killed (delete_steps fresh) s k)).
+Proof. exact delete_keeps_other_versions. Qed.
+Print Assumptions C11_versioned_delete_frame.
+
+(* the order of the two attribute writes matters: with the marker flag first (the code before the repair, KNOWN_FINDINGS "fixed"
+   C11) a kill between them makes an acknowledged version vanish *)
+Theorem C11_marker_first_order_refuted :
+  let s := {| current := {| c_data := 7; c_vid := 1; c_marker := false |}; archive := [] |} in
+  ~ In (1, 7) (shown (run_killed (delete_steps_old 2) s 2)) /\ reads (run_killed (delete_steps_old 2) s 2) = None.
+Proof. exact old_order_loses_version. Qed.
+Print Assumptions C11_marker_first_order_refuted.
 
 Example C11_example :
   let s := {| dentry := Some 1; leftovers := []; bucket_exists := true |} in
